@@ -9,7 +9,7 @@ CLASSES = ('GaussianUnivariate', 'BetaUnivariate', 'GammaUnivariate', 'StudentTU
            'LogLaplace', 'UniformUnivariate', 'TruncatedGaussian', 'GaussianKDE', 'Univariate')
 
 DATA_KINDS = ('normal', 'skewed', 'heavy', 'bimodal', 'five', 'ties', 'tiny', 'huge', 'offset',
-              'uniform', 'beta')
+              'uniform', 'beta', 'minuscule')
 
 
 def klass(name):
@@ -94,6 +94,9 @@ def make_data(spec):
         x = rng.lognormal(0, 0.5, n) * 1e6
     elif kind == 'offset':
         x = 1e6 + rng.normal(0, 1, n)
+    elif kind == 'minuscule':
+        # non-constant data whose spread is far below any absolute tolerance (5 + 1e-9 * N(0,1))
+        x = float(rng.choice([0.0, 5.0])) + 10 ** rng.uniform(-10, -9) * rng.standard_normal(n)
     elif kind == 'uniform':
         x = rng.uniform(rng.uniform(-2, 0), rng.uniform(1, 5), n)
     elif kind == 'beta':
